@@ -53,15 +53,52 @@ fn is_tensor(v: &Value) -> bool {
 }
 
 fn check_node(built: Option<&Built>, run: &NodeRun, seed: u32, st: &mut Stats) -> Result<(), Verdict> {
-    let Some(base) = run.base.ok() else {
-        st.labels.push(base_failure_label(run));
-        return Ok(());
-    };
     let op = run.node.operator();
     if !op.is_deterministic() {
         st.labels.push("non-deterministic-op");
         return Ok(());
     }
+    let Some(base) = run.base.ok() else {
+        st.labels.push(base_failure_label(run));
+        // The relation is symmetric: a run that fails on contiguous inputs must not succeed merely
+        // because an input is laid out differently.
+        for (p, v) in run.inputs.iter().enumerate() {
+            let Some(v) = v else { continue };
+            if !is_tensor(v) || v.len() == 0 {
+                continue;
+            }
+            for kind in [Kind::Permuted, Kind::Stepped] {
+                let shape = v.shape().to_vec();
+                let r = Recipe::derive(kind, &shape, &vec![false; shape.len()], seed ^ (p as u32 * 131), true);
+                let l = lay(v, &r).unwrap();
+                if l.is_contiguous() {
+                    continue;
+                }
+                let views: Vec<Option<ValueView>> = run.inputs.iter().enumerate().map(|(q, w)| if q == p { Some(l.view()) } else { w.as_ref().map(|w| w.as_view()) }).collect();
+                if let Outcome::Ok(outs) = run_op(run.node, &views) {
+                    let why = match &run.base {
+                        Outcome::Err(e) => format!("returns Err({e})"),
+                        Outcome::Panic(pi) => format!("panics ({} at {})", pi.msg, pi.loc()),
+                        _ => unreachable!(),
+                    };
+                    return Err(Verdict::fail(
+                        format!("layout:{}:ok-only-when-noncontiguous:in{p}:{}", run.op, kind.name()),
+                        format!(
+                            "{}: run {why} with contiguous inputs but succeeds when input {p} is a {} view (strides {:?}); node {}; inputs [{}]; outputs [{}]",
+                            run.op,
+                            kind.name(),
+                            l.strides(),
+                            built.map(|b| node_def_json(b, run.node.name())).unwrap_or_else(|| "(optimised graph)".into()),
+                            run.inputs.iter().map(show_opt).collect::<Vec<_>>().join("; "),
+                            outs.iter().map(show).collect::<Vec<_>>().join("; ")
+                        ),
+                    ));
+                }
+                st.labels.push("base-failure-also-fails-noncontiguous");
+            }
+        }
+        return Ok(());
+    };
     let cmp_mode = layout_cmp(run.op);
     let positions: Vec<usize> = (0..run.inputs.len()).filter(|p| run.inputs[*p].as_ref().map(|v| is_tensor(v) && v.len() > 0).unwrap_or(false)).collect();
     if positions.is_empty() {
@@ -527,7 +564,7 @@ fn main() {
     ck.assume("index tensors of Scatter* are not rewritten to contain duplicates (ONNX leaves duplicate indices undefined)");
     ck.set_threads(12);
     let profile = Profile::all_ops();
-    let n = ck.pick(40_000, 1_000_000);
+    let n = ck.pick(60_000, 1_000_000);
     ck.prop_export("ops", n, || op_case(1, 2), |c| oracle_ops(&profile, c, Config::Plain), |c| c.export(&profile));
     let biased = Profile::inplace_biased();
     ck.prop_export("ops-elementwise", n / 4, || op_case(1, 3), |c| oracle_ops(&biased, c, Config::Plain), |c| c.export(&biased));
